@@ -361,10 +361,17 @@ impl Response {
                         /* capacity for a single line */
                         "data: ".len() + chunk.len() + "\n\n".len()
                     );
-                    for line in chunk.split('\n') {
-                        message.extend_from_slice(b"data: ");
-                        message.extend_from_slice(line.as_bytes());
-                        message.push(b'\n');
+                    let mut lines = chunk.split('\n').peekable();
+                    while let Some(mut line) = lines.next() {
+                        /* CRLF and a lone CR are line breaks of an event stream as well as LF */
+                        if lines.peek().is_some() {
+                            line = line.strip_suffix('\r').unwrap_or(line)
+                        }
+                        for line in line.split('\r') {
+                            message.extend_from_slice(b"data: ");
+                            message.extend_from_slice(line.as_bytes());
+                            message.push(b'\n');
+                        }
                     }
                     message.push(b'\n');
 
